@@ -132,6 +132,7 @@ structure St where
   sent : Array Data := #[]                      -- data messages sent while the model session was not aborted
   modelOut : Array EdgeMsg := #[]
   chunked : Bool := false
+  taskBefore : Option (List Data) := none   -- task cases: what the sink in front of the UDF recorded
   branches : List String := []
   nontrivial : Bool := false
 
@@ -307,6 +308,36 @@ def judgeOut (st : St) (obs : List String) (l : String) : Except Verdict St := d
     return st
   | _ => .error (.badop l)
 
+/-! ### task cases: a real task `…@sink()@echo()@sink()`; input = what the first sink recorded -/
+
+def dataToMsg : Data → EdgeMsg
+  | .point p => .point p
+  | .batch b pts => .buffered b pts
+
+def judgeTaskAfter (st : St) (before : List Data) (toks : List String) (l : String) : Except Verdict St := do
+  let toks := if toks == ["!"] then [] else toks
+  let some recvd := toks.mapM parseOut | .error (.badop l)
+  let rd := recvd.map (·.1)
+  let dimsDev := before.any devDims
+  if !echoIdentity before rd then
+    if !(dimsDev && echoIdentityUpToDims before rd) then
+      let i := firstDiff before rd
+      .error (.specfail "echo-identity" s!"task: {before.length} data messages entered the UDF node, {rd.length} left it; first difference at index {i}: {toks.getD i "nothing"}")
+  -- the model, fed with what entered the UDF node
+  let st ← runModel st (before.map dataToMsg)
+  let some mdl := st.modelOut.toList.mapM edgeToData | .error (.mismatch "model emitted a non-data message")
+  if !echoIdentity mdl rd then
+    .error (.mismatch s!"task: model output differs from what left the UDF node at index {firstDiff mdl rd}")
+  if !echoIdentity before rd then
+    .error (.known "batch-dims-rederived" "task with groupBy naming a dimension twice: batches left the UDF node with dimensions and group re-derived from their tags")
+  let mut st := st
+  for d in before do
+    match d with
+    | .point p => st := addBrs st (["task-point", "task-" ++ groupBranch p.byName p.dims] ++ fieldBranches p.fields)
+    | .batch b pts => st := addBrs st (["task-batch", "task-batch-" ++ groupBranch b.byName b.dims] ++ pts.flatMap (fun p => fieldBranches p.fields))
+  if before.length ≥ 2 then st := { st with nontrivial := true }
+  return st
+
 def judgeLine (st : St) (l : String) : Except Verdict St := do
   let (opT, obs) := splitObs (tokens l)
   if obs == ["panic"] then .error (.specfail "no-panic" l)
@@ -410,6 +441,20 @@ def judgeLine (st : St) (l : String) : Except Verdict St := do
     if outs != [.snapshot bytes] then .error (.mismatch "snapshot inside a batch: model differs")
     runModel st ((pts.drop k).map .bp ++ [.endB])
   | ["join"] => return st
+  | "task" :: kind :: _ => return addBr st ("task-" ++ kind)
+  | "wp" :: _ => return st
+  | ["run"] =>
+    match obs with
+    | status :: _ => if status != "ok" then .error (.specfail "session-clean" s!"the task with an echoing UDF node ended with {obs}") else return st
+    | _ => .error (.badop l)
+  | ["before"] =>
+    let toks := if obs == ["!"] then [] else obs
+    let some b := toks.mapM parseOut | .error (.badop l)
+    return { st with taskBefore := some (b.map (·.1)) }
+  | ["after"] =>
+    match st.taskBefore with
+    | some before => judgeTaskAfter st before obs l
+    | none => .error (.badop l)
   | ["out"] => judgeOut st obs l
   | _ => .error (.badop l)
 
